@@ -395,7 +395,7 @@ func cmdCheck(args []string) int {
 
 	// bounded stand-ins (labelled bounded, never counted as proved)
 	if h, ok := boundedHarness[prop]; ok && *only == "" {
-		bv, be := runBounded(prop, h, *tier, int64(seed), *verif, replayDir, scratch)
+		bv, be := runBounded(prop, h, *tier, int64(seed), *repo, *verif, replayDir, scratch)
 		violations += bv
 		engineErrors = append(engineErrors, be...)
 		for _, e := range be {
@@ -511,14 +511,14 @@ var boundedHarness = map[string]boundedSpec{
 	"C06": {"bounded/builder_bounded_test.go", ".", "TestZZBoundedBuilder", "assumed contract of modbus.groupForSingleConnection (Go map keyed by a formatted string) and the whole-pipeline conjuncts 'every field exactly once' / 'window ends where its furthest field ends' on the real split"},
 }
 
-func runBounded(prop string, h boundedSpec, tier string, seed int64, verif, replayDir, scratch string) (int, []string) {
+func runBounded(prop string, h boundedSpec, tier string, seed int64, repo, verif, replayDir, scratch string) (int, []string) {
 	t0 := time.Now()
 	ov := filepath.Join(scratch, "bounded_overlay.json")
-	target := filepath.Join("/repo", h.PkgDir, "zz_bounded_verif_test.go")
+	target := filepath.Join(repo, h.PkgDir, "zz_bounded_verif_test.go")
 	b, _ := json.Marshal(map[string]interface{}{"Replace": map[string]string{target: filepath.Join(verif, h.File)}})
 	os.WriteFile(ov, b, 0644)
 	cmd := exec.Command("go", "test", "-overlay", ov, "-vet=off", "-count=1", "-timeout", "1500s", "-v", "-run", "^"+h.Run+"$", ".")
-	cmd.Dir = filepath.Join("/repo", h.PkgDir)
+	cmd.Dir = filepath.Join(repo, h.PkgDir)
 	cmd.Env = append(os.Environ(), "VERIF_TIER="+tier, fmt.Sprintf("VERIF_SEED=%d", seed))
 	out, err := cmd.CombinedOutput()
 	var rep map[string]interface{}
